@@ -1,6 +1,7 @@
 package c10
 
 import (
+	"errors"
 	"fmt"
 	"math"
 	"regexp"
@@ -20,7 +21,7 @@ import (
 // TestKnownFindings run with strict=true, i.e. with no exclusion.
 var openFindings = map[string]bool{
 	"F-C10-1": false, // copy(<builtin function>) lost the function's name; repaired in /repo by bd9c161, replay under replays/C10/fixed
-	"F-C10-2": true,  // bytes(<negative int>) panics (makeslice) instead of failing in an orderly way
+	"F-C10-2": false, // bytes(<negative int>) panicked (makeslice); repaired in /repo by 8264e23 (now the run-time error "invalid type for argument"), replays under replays/C10/fixed
 }
 
 func excluded(id string, strict bool) bool { return openFindings[id] && !strict }
@@ -228,10 +229,11 @@ func sortedBytes(s string) string {
 // conversion (X) -> undefined / the default. skip != "" : not asserted.
 // For fn=="string" on a value containing a multi-key map, cmp="multiset".
 type convWant struct {
-	ok   bool
-	obj  tengo.Object
-	cmp  string // "" exact (tv.Equal), "multiset" (string: same bytes in any order), "same-object" (x itself documented as "-")
-	skip string
+	ok    bool
+	obj   tengo.Object
+	cmp   string // "" exact (tv.Equal), "multiset" (string: same bytes in any order), "same-object" (x itself documented as "-")
+	skip  string
+	rterr bool // the call must fail with the run-time error "invalid type for argument" (bytes(<negative int>))
 }
 
 var convFns = []string{"string", "int", "float", "char", "bytes", "time"}
@@ -294,7 +296,10 @@ func convModel(fn string, x tengo.Object, strict bool) convWant {
 				if excluded("F-C10-2", strict) {
 					return convWant{skip: "known:F-C10-2"}
 				}
-				return convWant{skip: "orderly"} // any orderly outcome, but no Go panic
+				// no Bytes of a negative size exists: a run-time error
+				// (ErrInvalidArgumentType since 8264e23), never a value
+				// and never a Go panic
+				return convWant{rterr: true}
 			}
 			if v.Value > maxBytesN {
 				return convWant{skip: "bytes(N) with N > 4096 not allocated (bounded work)"}
@@ -346,8 +351,15 @@ func checkConv(x, d tengo.Object, script, strict bool, out map[string]tengo.Obje
 	kx := kindOf(x)
 	for _, fn := range convFns {
 		w := convModel(fn, x, strict)
-		if w.skip != "" && w.skip != "orderly" {
+		if w.skip != "" {
 			ev.Discard(w.skip)
+			continue
+		}
+		if w.rterr {
+			if v := checkConvFails(fn, x, d, script); v != "" {
+				return v, cls
+			}
+			cls = append(cls, "conv:"+fn+"/"+kx+":run-time-error")
 			continue
 		}
 		var got1, got2 tengo.Object
@@ -356,9 +368,6 @@ func checkConv(x, d tengo.Object, script, strict bool, out map[string]tengo.Obje
 			if fn == "bytes" {
 				src = bytesOut
 				if bytesErr != nil {
-					if w.skip == "orderly" && !strings.Contains(bytesErr.Error(), "runtime error:") {
-						continue
-					}
 					return fmt.Sprintf("bytes(%s) failed at run time: %v", dx, firstLine(bytesErr.Error())), cls
 				}
 			}
@@ -370,19 +379,16 @@ func checkConv(x, d tengo.Object, script, strict bool, out map[string]tengo.Obje
 			if pan != "" {
 				return fmt.Sprintf("%s(%s) %s", fn, dx, pan), cls
 			}
-			if err != nil && w.skip != "orderly" {
+			if err != nil {
 				return fmt.Sprintf("%s(%s) failed: %v", fn, dx, err), cls
 			}
 			got2, err, pan = callBuiltin(fn, x, d)
 			if pan != "" {
 				return fmt.Sprintf("%s(%s, %s) %s", fn, dx, dd, pan), cls
 			}
-			if err != nil && w.skip != "orderly" {
+			if err != nil {
 				return fmt.Sprintf("%s(%s, %s) failed: %v", fn, dx, dd, err), cls
 			}
-		}
-		if w.skip == "orderly" {
-			continue
 		}
 		if w.ok {
 			cls = append(cls, "conv:"+fn+"/"+kx+":converts")
@@ -409,6 +415,51 @@ func checkConv(x, d tengo.Object, script, strict bool, out map[string]tengo.Obje
 		}
 	}
 	return "", append(cls, "law:conversion-table")
+}
+
+// checkConvFails: fn(x) and fn(x, d) must both end in the run-time error
+// "invalid type for argument" (tengo.ErrInvalidArgumentType): no value, no
+// default, no Go panic. Script path: an ordinary located "Runtime Error:".
+// Each form runs in a script of its own (the first failure ends a script).
+func checkConvFails(fn string, x, d tengo.Object, script bool) string {
+	dx, dd := tv.Describe(x), tv.Describe(d)
+	if !script {
+		for i, args := range [][]tengo.Object{{x}, {x, d}} {
+			call := fmt.Sprintf("%s(%s)", fn, dx)
+			if i == 1 {
+				call = fmt.Sprintf("%s(%s, %s)", fn, dx, dd)
+			}
+			got, err, pan := callBuiltin(fn, args...)
+			if pan != "" {
+				return call + " " + pan
+			}
+			var want tengo.ErrInvalidArgumentType
+			if err == nil {
+				return fmt.Sprintf("%s = %s, expected the run-time error \"invalid type for argument\"", call, tv.Describe(got))
+			}
+			if !errors.As(err, &want) {
+				return fmt.Sprintf("%s failed with %q, expected the run-time error \"invalid type for argument\"", call, firstLine(err.Error()))
+			}
+		}
+		return ""
+	}
+	judge := func(call string, out map[string]tengo.Object, err error, name string) string {
+		if err == nil {
+			return fmt.Sprintf("%s = %s, expected the run-time error \"invalid type for argument\"", call, tv.Describe(out[name]))
+		}
+		msg := err.Error()
+		if strings.Contains(msg, "runtime error:") || !strings.HasPrefix(msg, "Runtime Error: invalid type for argument") || !strings.Contains(msg, "\n\tat ") {
+			return fmt.Sprintf("%s failed with %q, expected a located \"Runtime Error: invalid type for argument ...\"", call, firstLine(msg))
+		}
+		return ""
+	}
+	in := map[string]tengo.Object{"x": x, "d": d}
+	out, err := runScript("r := "+fn+"(x)", in)
+	if v := judge(fmt.Sprintf("%s(%s)", fn, dx), out, err, "r"); v != "" {
+		return v
+	}
+	out, err = runScript("r := "+fn+"(x, d)", in)
+	return judge(fmt.Sprintf("%s(%s, %s)", fn, dx, dd), out, err, "r")
 }
 
 func firstLine(s string) string {
